@@ -373,7 +373,7 @@ impl Monitor for C04 {
          equality, involution as raw equality, (f;g)+ = g+;f+ and (f|g)+ = f+|g+ up to isomorphism, strict and lax), (b) spider construction with leg codomains at |w|, |w|+1, |w|-1 \
          (None iff a leg does not land in the node list; strict inherent, Spider trait, lax), half_spider, (c) pairs of labelled cospans with matching boundary type, non-injective and \
          non-surjective legs, composed through the API and compared up to isomorphism with cospan composition on the plain model (strict and lax), result must be discrete, (d) \
-         identities and symmetries as spiders. non-trivial = fusion with a non-injective inner leg, a rejection, or a contravariance instance with >=1 hyperedge; distinct = hash of the instance."
+         identities and symmetries as spiders. non-trivial = fusion with a non-injective inner leg, a rejection, or a contravariance instance with >=1 hyperedge; distinct = hash of the instance. Also: half_spider (strict and lax) refuses exactly when the leg's codomain is not the node count and otherwise is the spider with an identity leg (compared with the model); the lax Spider trait; legs with an entry equal to the node count (also over an empty node list); strict dagger laws compared with the model."
     }
     fn corpus_len(&self) -> u64 {
         8
